@@ -33,13 +33,22 @@ class Interner:
         return self.t.setdefault(x, len(self.t) + 1)
 
 
+def frame_chain(sf, limit=40):
+    """the whole symbolic stack frame chain by value and identity (a chain edited in place is a modification of the caller's objects)"""
+    out = []
+    while sf is not None and len(out) < limit:
+        out.append((id(sf), getattr(sf, "name", None), getattr(sf, "path", None), getattr(sf, "line", None)))
+        sf = getattr(sf, "outer", None)
+    return tuple(out)
+
+
 def snap_plan(plan):
     g = plan.graph
     return {
         "plan_scope": plan._scope,
         "graph": id(g),
         "nodes": [(id(n), type(n).__name__, getattr(n, "scope", None), id(getattr(n, "fn", None)), id(getattr(n, "value", None)),
-                   id(getattr(n, "stack_frame", None)), tuple(sorted(d.items()))) for n, d in g.nodes(data=True)],
+                   frame_chain(getattr(n, "stack_frame", None)), tuple(sorted(d.items()))) for n, d in g.nodes(data=True)],
         "edges": sorted((id(u), id(v), repr(k), tuple(sorted(d.items()))) for u, v, k, d in g.edges(keys=True, data=True)),
         "graph_attrs": tuple(sorted(g.graph.items())),
     }
@@ -49,7 +58,7 @@ def snap_reg(reg):
     if reg is None:
         return None
     return {"mapping": id(reg.mapping),
-            "entries": [(id(n), id(rv), id(rv.value_store), rv.is_source, id(rv.stack_frame)) for n, rv in reg.mapping.items()]}
+            "entries": [(id(n), id(rv), id(rv.value_store), rv.is_source, frame_chain(rv.stack_frame)) for n, rv in reg.mapping.items()]}
 
 
 def diff(a, b):
